@@ -14,10 +14,12 @@ import (
 	"os"
 	"path/filepath"
 	"sync"
+	"sync/atomic"
 	"time"
 
 	"github.com/cronokirby/saferith"
 	"github.com/fxamacker/cbor/v2"
+	"github.com/taurusgroup/multi-party-sig/internal/round"
 	"github.com/taurusgroup/multi-party-sig/pkg/hash"
 	"github.com/taurusgroup/multi-party-sig/protocols/cmp"
 
@@ -118,6 +120,7 @@ func raceReal(res *vkit.Result) {
 		}
 	}
 	sharedPointBody(res)
+	sharedHelperBody(res)
 	msg := func(i int) []byte { return []byte(fmt.Sprintf("message-%02d-0123456789abcdef0123456", i)) }
 	sess.PoolWorkers = 4
 	defer func() { sess.PoolWorkers = 0 }()
@@ -233,6 +236,51 @@ func sharedPointBody(res *vkit.Result) {
 				res.Violate("shared-point|wrong-encoding-under-concurrent-marshalling", "four goroutines marshalling one computed point at the same time: "+b, map[string]interface{}{"race_body": "shared-point"})
 				return
 			}
+		}
+		res.Case("")
+	}
+}
+
+// sharedHelperBody: the session helper (internal/round.Helper) carries the running transcript hash behind
+// its own mutex; the rounds read it from pool workers (HashForID, Hash) and advance it (UpdateHashState).
+// Distilled: four goroutines reading while two advance the state.  The race detector must stay silent and
+// every reader must obtain a usable hash.
+func sharedHelperBody(res *vkit.Result) {
+	ids := party.NewIDSlice([]party.ID{"a", "b", "c"})
+	for rep := 0; rep < 20; rep++ {
+		h, err := round.NewSession(round.Info{ProtocolID: "c17/helper", FinalRoundNumber: 3, SelfID: "a", PartyIDs: ids, Threshold: 1, Group: sess.Group}, []byte{byte(rep)}, nil)
+		if err != nil {
+			res.Hard("helper body: " + err.Error())
+			return
+		}
+		var wg sync.WaitGroup
+		var bad atomic.Value
+		for w := 0; w < 6; w++ {
+			w := w
+			wg.Add(1)
+			go func() {
+				defer wg.Done()
+				defer func() {
+					if r := recover(); r != nil {
+						bad.Store(fmt.Sprintf("panic: %v", r))
+					}
+				}()
+				for i := 0; i < 50; i++ {
+					if w < 2 {
+						h.UpdateHashState(hash.BytesWithDomain{TheDomain: "c17", Bytes: []byte{byte(w), byte(i)}})
+					} else {
+						x := h.HashForID(ids[w%3])
+						if x == nil || len(x.Sum()) == 0 || h.Hash() == nil {
+							bad.Store("HashForID / Hash returned nothing")
+						}
+					}
+				}
+			}()
+		}
+		wg.Wait()
+		if v := bad.Load(); v != nil {
+			res.Violate("shared-helper|"+fmt.Sprint(v)[:12], fmt.Sprintf("concurrent readers and writers of one session helper: %v", v), map[string]interface{}{"race_body": "shared-helper"})
+			return
 		}
 		res.Case("")
 	}
